@@ -300,7 +300,7 @@ def c_event(e):
 
 RUN_HEADER = """From Coq Require Import List NArith ZArith Bool.
 Import ListNotations.
-From LCC Require Import Base.Util Model.Report Model.Events Model.Writer Model.Prefix Model.Saving.
+From LCC Require Import Base.Util Model.Report Model.Events Model.Writer Model.Prefix Model.Saving Model.StreamOk.
 From LCC Require gen.TablesSaving.
 (* strategy expression, last_saved_time at session creation, (event, clock reads) in delivery order, the event counts at which the
    file's bytes changed, sampled (count, file loaded by the real loader), the final in-memory report *)
@@ -325,6 +325,8 @@ Definition rels (c : rcase) : list bool :=
   | Err _ => [false; false; false; false; false]
   end.
 Definition agrees (c : rcase) : bool := forallb (fun b : bool => b) (rels c).
+(* informational: is the delivered stream accepted by the grammar of C07 (Model/StreamOk.v, live mode)? *)
+Definition grammar_ok (c : rcase) : bool := let '(_, _, evs, _, _, _) := c in stream_ok live_mode (map fst evs).
 """
 RUN_RELS = ["Saving.run saves exactly at the event counts where the real report file changed",
             "the file loaded by the real loader = normalize(writer state) at that save (title/info/nb_threads/saving_time taken from the file)",
@@ -347,7 +349,8 @@ def c_rcase(case, r, rng):
 
 def run_file(terms):
     return RUN_HEADER + "Definition cases : list rcase := [\n%s\n].\n" % ";\n".join(terms) + \
-        "Eval vm_compute in (find_indexes (fun c => negb (agrees c)) cases).\n"
+        "Eval vm_compute in (find_indexes (fun c => negb (agrees c)) cases).\n" + \
+        "Eval vm_compute in (find_indexes (fun c => negb (grammar_ok c)) cases).\n"
 
 
 def run_detail_file(term):
@@ -439,6 +442,56 @@ def crash_detail_file(term):
         "Eval vm_compute in (find_indexes (fun b : bool => negb b) (rels c)).\n"
 
 
+# ----------------------------------------------------------------------------------------------- strategy expressions
+EXPRESSIONS = ["at_end_of_tests", "at_each_suite", "at_each_test", "at_each_failed_test", "at_each_log", "at_each_event",
+               "every_1s", "every_15s", "every 2s", "every_0s", "every_007s", "every_123456789s", "every_s", "every_5", "every-5s",
+               "EVERY_5s", "every_5s ", " every_5s", "every_5ss", "every__5s", "every_5.5s", "every_-5s", "", "at_each", "at_each_tests",
+               "at each test", "every_5s\n", "every_\u0663s", "every_5\u00e9s", "at_end_of_tests\n", "everyx5s", "every5s"]
+SFUN_OF = {"save_at_each_suite_strategy": "FSuite", "save_at_each_test_strategy": "FTest",
+           "save_at_each_failed_test_strategy": "FFailedTest", "save_at_each_log_strategy": "FLog"}
+EXPR_HEADER = """From Coq Require Import List NArith ZArith Bool.
+Import ListNotations.
+From LCC Require Import Base.Util Model.Report Model.Events Model.Saving.
+From LCC Require gen.TablesSaving.
+Definition strat_eqb (a b : strat) : bool :=
+  match a, b with
+  | SFun FSuite, SFun FSuite | SFun FTest, SFun FTest | SFun FFailedTest, SFun FFailedTest | SFun FLog, SFun FLog => true
+  | SInterval n, SInterval m => Z.eqb n m
+  | _, _ => false
+  end.
+(* Err Unmodelled = outside the modelled fragment of the regular expression (non-ASCII digits, trailing newline): excluded *)
+Definition agrees (c : str * res (option strat)) : bool :=
+  match make_strategy TablesSaving.T (fst c) with
+  | Err Unmodelled => true
+  | r => res_eqb (option_eqb strat_eqb) r (snd c)
+  end.
+Definition unmodelled (c : str * res (option strat)) : bool :=
+  match make_strategy TablesSaving.T (fst c) with Err Unmodelled => true | _ => false end.
+"""
+
+
+def observe_expression(expr):
+    from lemoncheesecake.reporting.savingstrategy import make_report_saving_strategy, SaveAtInterval
+    try:
+        st = make_report_saving_strategy(expr)
+    except ValueError:
+        return "Err ValueError"
+    if st is None:
+        return "Ok None"
+    if isinstance(st, SaveAtInterval):
+        return "Ok (Some (SInterval %s))" % c_Z(st.interval)
+    return "Ok (Some (SFun %s))" % SFUN_OF[st.__name__]
+
+
+def expr_file(rng):
+    exprs = list(EXPRESSIONS) + ["every_%ds" % rng.randint(0, 10 ** rng.randint(1, 6)) for _ in range(10)]
+    obs = [(e, observe_expression(e)) for e in exprs]
+    text = EXPR_HEADER + "Definition cases : list (str * res (option strat)) := [\n%s\n].\n" % ";\n".join(
+        "(%s, %s)" % (c_str(e), o) for e, o in obs) + \
+        "Eval vm_compute in (find_indexes (fun c => negb (agrees c)) cases).\nEval vm_compute in (find_indexes unmodelled cases).\n"
+    return exprs, obs, text
+
+
 # ----------------------------------------------------------------------------------------------- drivers
 def run_impl_many(script, payloads, jobs=None, timeout=180):
     def one(p):
@@ -477,6 +530,64 @@ def gen_crash_payloads(run, n):
     return out
 
 
+def _strip_deps(pd, removed_prefixes):
+    def walk(s):
+        for t in s["tests"]:
+            t["deps"] = [d for d in t["deps"] if not any(d == r or d.startswith(r + ".") for r in removed_prefixes)]
+        for u in s["subs"]:
+            walk(u)
+    for s in pd["suites"]:
+        walk(s)
+
+
+def _shrink_candidates(case):
+    """Smaller variants of a run case: one thread, a suite / sub-suite / test removed (dependencies on it dropped), no fixtures."""
+    import copy
+    if case["options"].get("nb_threads", 1) != 1:
+        c = copy.deepcopy(case)
+        c["options"]["nb_threads"] = 1
+        yield c
+
+    def sites(suites, prefix):
+        for i, s in enumerate(suites):
+            path = prefix + s["name"]
+            yield ("suite", suites, i, path)
+            for j, t in enumerate(s["tests"]):
+                yield ("test", s["tests"], j, path + "." + t["name"])
+            yield from sites(s["subs"], path + ".")
+    n = len(list(sites(case["project"]["suites"], "")))
+    for k in range(n):
+        c = copy.deepcopy(case)
+        kind, lst, i, path = list(sites(c["project"]["suites"], ""))[k]
+        if kind == "suite" and lst is c["project"]["suites"] and len(lst) == 1:
+            continue
+        del lst[i]
+        _strip_deps(c["project"], [path])
+        yield c
+
+
+def shrink_run_case(case, signature, budget=14):
+    """Greedy shrinking of a failing run case: keeps a variant when the oracle still reports the same signature."""
+    cur, text = case, None
+    while budget > 0:
+        progressed = False
+        for cand in _shrink_candidates(cur):
+            if budget <= 0:
+                break
+            budget -= 1
+            try:
+                r = lib.run_impl("impl_saving.py", cand, timeout=120)
+            except Exception:
+                continue
+            hit = [t for sig, t in run_oracle(cand, r) if sig == signature] if "events" in r else []
+            if hit:
+                cur, text, progressed = cand, hit[0], True
+                break
+        if not progressed:
+            break
+    return cur, text
+
+
 def check(run):
     run.trusted += [
         "modelled, not verified: OS crash semantics (Model/CrashFS.v header: atomic operations in program order, no buffering, no "
@@ -493,7 +604,8 @@ def check(run):
                    "(pinned by harness/tables_saving.py on Session.create / EventManager.add_listener / EventType.handle)",
                    "the temporary file name (<report file>.tmp) is not used by anything else in the report directory"]
     run.prove(extra_targets=["theories/Base/Util.vo", "theories/Model/Prefix.vo", "theories/Model/Saving.vo",
-                             "theories/Model/CrashFS.vo", "theories/gen/TablesSaving.vo"])
+                             "theories/Model/CrashFS.vo", "theories/Model/Writer.vo", "theories/Model/StreamOk.vo",
+                             "theories/gen/TablesSaving.vo"])
     quick = run.tier == "quick"
     # ------------------------------------------------------------------ (1) runs
     cases = gen_run_cases(run, 60 if quick else 1000)
@@ -513,7 +625,12 @@ def check(run):
         run.count("events", len(r["events"]))
         run.count("saves", len(r["changes"]))
         for sig, text in run_oracle(c, r):
-            run.violation(sig, text, {"kind": "run", "case": c})
+            if not any(h["signature"] == sig for h in run.oracle_hits) and len(run.oracle_hits) < 4:
+                small, text2 = shrink_run_case(c, sig)
+                run.violation(sig, text2 or text, {"kind": "run", "case": small, "shrunk_from_tests": projgen.count_tests(c["project"]),
+                                          "tests": projgen.count_tests(small["project"])})
+            else:
+                run.violation(sig, text, {"kind": "run", "case": c})
         loaded = [ch for ch in r["changes"] if ch["nf"] is not None]
         if len(r["changes"]) >= 2 and (c["backend"] == "junit" or (loaded and but_saving(loaded[0]["nf"]) != but_saving(r["final"]))):
             run.nontrivial.add(c["id"])
@@ -534,11 +651,33 @@ def check(run):
             if bad is None:
                 run.tie_broken("run case file did not evaluate", detail=out[-1500:])
                 continue
+            import re
+            lists = re.findall(r"=\s*(\[[^\]]*\]|nil)\s*:\s*list nat", out, re.S)
+            if len(lists) == 2:
+                rejected = 0 if lists[1].strip() in ("nil", "[]") else lists[1].count(";") + 1
+                run.count("streams_checked_against_C07_grammar", len(ts))
+                run.count("streams_rejected_by_C07_grammar(informational)", rejected)
             for b in bad[:2]:
                 rc2, out2 = run.coq_eval("rundetail", run_detail_file(ts[b]))
                 which = lib.parse_nat_list(out2) if rc2 == 0 else None
                 run.tie_broken("; ".join(RUN_RELS[i] for i in (which or [])) or "run correspondence",
                                case=cs[b], detail=None if which else out2[-800:])
+    # ------------------------------------------------------------------ (3) --save-report expressions
+    exprs, obs, text = expr_file(run.rng)
+    run.evaluations += len(exprs)
+    run.count("expressions", len(exprs))
+    if run.model_ok:
+        rc, out = run.coq_eval("exprs", text)
+        import re
+        lists = re.findall(r"=\s*(\[[^\]]*\]|nil)\s*:\s*list nat", out, re.S) if rc == 0 else []
+        bad = lib.parse_nat_list(out) if rc == 0 else None
+        if bad is None:
+            run.tie_broken("expression case file did not evaluate", detail=out[-1500:])
+        else:
+            for b in bad[:3]:
+                run.tie_broken("Saving.make_strategy = make_report_saving_strategy", case={"expression": exprs[b]}, impl=obs[b][1])
+            if len(lists) == 2:
+                run.count("expressions_outside_model", 0 if lists[1] in ("nil", "[]") else lists[1].count(";") + 1)
     # ------------------------------------------------------------------ (2) crash enumeration on the real save code
     payloads = gen_crash_payloads(run, 3 if quick else 40)
     cres = run_impl_many("impl_crash.py", payloads, timeout=300)
